@@ -24,6 +24,9 @@ from common import Ctx, Outcome
 RULE = ("path strings enumerated exhaustively over the component alphabet "
         "{'..','.','','a','b c','%41','é','\\\\','x.y','%2e%2e','a%2fb'} x leading {'', '/', '//'} up to N components "
         "(N=3 quick, 4 thorough) x subdir settings x handlers x entry points, plus seeded random longer ones; "
+        "HTTP URL templates: every escape (%s %q %d %n %e %%), no escape (default /%s), unknown and upper-case escapes, literal percent signs, "
+        "lower-case percent-escapes in the template x subdirs x names with dots, query, fragment and percent characters; "
+        "_tmpname on names around the 250-byte cut with 1-, 2-, 3- and 4-byte characters; "
         "distinct = distinct (stream, handler, subdir, name); non-trivial = the name contains a '..', '.', "
         "empty, absolute or special-character component, or a non-root subdir is configured")
 ASSUMPTIONS = [
@@ -36,7 +39,10 @@ MANIFEST = dict(
     text=("Lean theorems over a model of PurePosixPath construction, normalize_pure_path, each handler's path "
           "composition and percent-quoting: for every subdir string and every file name the accessed parts start "
           "with the normalised subdir and contain no '..', '.', empty or slash-bearing component; quoting is "
-          "invertible and emits no '?', '#', space (nor '/' with safe=''). The model is tied to /repo by an exhaustive "
+          "invertible and emits no '?', '#', space (nor '/' with safe=''); the HTTP handler's URL template expansion (%s %q %d %n %e %%, "
+          "default /%s, KeyError / ValueError branches) is modelled and for every template, subdir and name the requested URL has the "
+          "template's literal prefix and exactly the template's '?', '#' and blanks; the temp-file name of the local handler is a clean "
+          "sibling of at most 255 bytes. The model is tied to /repo by an exhaustive "
           "differential run over a component alphabet against pathlib, urllib and the real handlers with their backing "
           "stores intercepted; an independent lexical+realpath containment monitor is the failing-input search."),
     design_ref="§6 C14",
@@ -153,6 +159,13 @@ def make_git_repo(ctx: Ctx) -> pathlib.Path:
 
 
 # ------------------------------------------------------------------ the run
+
+
+HTTP_TEMPLATES = ["https://h.invalid/base", "https://h.invalid/base/", "https://h.invalid/base//", "https://h.invalid/b/%s",
+                  "https://h.invalid/?file=%q", "https://h.invalid/api?f=%2F%q&x=1#frag", "https://h.invalid/%d/-/%n.%e",
+                  "https://h.invalid/%%/%s", "https://h.invalid/100%/x", "https://h.invalid/%q/%s/%q", "https://h.invalid/a%20b/%s",
+                  "https://h.invalid/%x/%s", "https://h.invalid/%c3%a9/%s", "https://h.invalid/x%", "https://h.invalid/%%s",
+                  "https://h.invalid/%%%s", "https://h.invalid/%e;%n;%d", "https://h.invalid/%S/%Q", "https://h.invalid/é/%n"]
 
 
 def run(ctx: Ctx) -> Outcome:
@@ -376,6 +389,82 @@ def run(ctx: Ctx) -> Outcome:
             del fh_git.open
         del fh
 
+    # (g) HTTP URL templates: every escape of the template language, unknown escapes, literal percent signs, names with
+    #     dots / query / fragment / percent characters; the request is intercepted at session.get
+    import re as _re
+    T_NAMES = ["a.b.c", ".hidden", "a.", "x..y", "dir.d/file", "é.ü", "a b.c d", "?x=1#f.txt", "%41.%42", "", ".", "..", "a/..", "/abs/x.y",
+               "../../up.txt", "a//b.tar.gz", "q?/h#.e?", "n.%s", "\U0001F600.\U0001F600"]
+    T_NAMES += [n for n in hnames[:: ctx.pick(97, 11)]]
+    T_SUBDIRS = ["/", "sub", "a b/ü", "../x?y"]
+    for tmpl in HTTP_TEMPLATES:
+        eff = tmpl if _re.search("%[%a-z]", tmpl) else tmpl.rstrip("/") + "/%s"
+        pieces = _re.split("(%[%a-z])", eff)
+        rx = ""
+        kinds = []
+        for pc in pieces:
+            if _re.fullmatch("%[%a-z]", pc):
+                if pc == "%%":
+                    rx += "%"
+                else:
+                    kinds.append(pc[1])
+                    rx += "([A-Za-z0-9_.~%/-]*)" if pc[1] in "sd" else "([A-Za-z0-9_.~%-]*)"
+            else:
+                rx += _re.escape(pc)
+        for sd in T_SUBDIRS:
+            try:
+                fh = fh_http.HTTPFileHandler(tmpl, subdir=sd)
+            except Exception as e:  # noqa: BLE001
+                out.find("http.init|raises", f"HTTPFileHandler({tmpl!r}) raised {e!r}", {"kind": "http-template", "template": tmpl, "subdir": sd, "name": ""})
+                continue
+            got: list[str] = []
+
+            def fake_get2(url, **k):
+                got.append(url)
+                raise FileNotFoundError(url)
+
+            fh.session.get = fake_get2
+            for n in T_NAMES:
+                got.clear()
+                try:
+                    fh.open(n)
+                    iv = {"err": "no-request"}
+                except FileNotFoundError:
+                    iv = {"url": got[0]} if got else {"err": "FileNotFoundError"}
+                except KeyError as e:
+                    iv = {"err": "KeyError:" + str(e.args[0])}
+                except Exception as e:  # noqa: BLE001
+                    iv = {"err": type(e).__name__}
+                add("http.template", [tmpl, sd, n], {"op": "http.request", "path": tmpl, "subdir": sd, "name": n}, iv)
+                out.case(("http-t", tmpl, sd, n), nontrivial=True)
+                out.hit("http.template:" + (("url:" + "".join(sorted(set(kinds)))) if "url" in iv else iv["err"].split(":")[0]))
+                if "url" not in iv:
+                    if not iv["err"].startswith(("KeyError", "ValueError")):
+                        out.find("http.open|unexpected-error", f"template {tmpl!r} subdir={sd!r} open({n!r}) -> {iv}",
+                                 {"kind": "http-template", "template": tmpl, "subdir": sd, "name": n})
+                    continue
+                u = iv["url"]
+                m = _re.fullmatch(rx, u)
+                want = expected_subdir(sd) + expected_subdir(n)
+                bad = None
+                if m is None:
+                    bad = "the URL is not the template with percent-encoded text in its placeholders"
+                elif u.count("?") != eff.count("?") or u.count("#") != eff.count("#"):
+                    bad = "the file name added query / fragment structure"
+                else:
+                    for kd, g in zip(kinds, m.groups()):
+                        segs = g.split("/")
+                        if kd == "s" and ([urllib.parse.unquote(c) for c in segs] != want or ".." in segs or "." in segs):
+                            bad = f"%s was expanded to {g!r}, expected the quoted components of {want}"
+                        if kd == "q" and (urllib.parse.unquote(g) != "/".join(want) or "/" in g):
+                            bad = f"%q was expanded to {g!r}"
+                        if kd == "d" and ([urllib.parse.unquote(c) for c in segs] != (want[:-1] or ["."]) or ".." in segs):
+                            bad = f"%d was expanded to {g!r}, expected the quoted directory {want[:-1]}"
+                        if kd in "ne" and ("/" in g or not want[-1].startswith(urllib.parse.unquote(g)) and not want[-1].endswith(urllib.parse.unquote(g))):
+                            bad = f"%{kd} was expanded to {g!r}, not a part of the file name {want[-1]!r}"
+                if bad:
+                    out.find("http.open|template-structure", f"{bad}: template {tmpl!r} subdir={sd!r} open({n!r}) requested {u!r}",
+                             {"kind": "http-template", "template": tmpl, "subdir": sd, "name": n})
+
     # (d) quote / unquote, (f) joinpath, tmpname
     strs = sorted({c for n in names[:2000] for c in n.split("/")} | {"", "a b", "é/ü", "?#&=+%", " x", "\U0001F600", "~_.-", "%zz", "100%"})
     strs += ["".join(ctx.rng.choice("ab /%?#é .~\\\U0001F600") for _ in range(ctx.rng.randint(1, 12))) for _ in range(ctx.pick(300, 3000))]
@@ -439,6 +528,18 @@ def replay(ctx: Ctx, case: dict):
         r = helpers.normalize_pure_path(case["path"], base=case["base"])
         if r.is_absolute() or any(c in ("..", ".", "") for c in r.parts):
             return f"normalize_pure_path -> {r}"
+        return None
+    if case["kind"] == "http-template":
+        from capellambse.filehandler import http as fh_http
+        fh = fh_http.HTTPFileHandler(case["template"], subdir=case["subdir"])
+        got = []
+        fh.session.get = lambda url, **k: (got.append(url), (_ for _ in ()).throw(FileNotFoundError(url)))[1]
+        try:
+            fh.open(case["name"])
+        except (FileNotFoundError, KeyError, ValueError):
+            pass
+        if got and (got[0].count("?") != case["template"].count("?") or got[0].count("#") != case["template"].count("#")):
+            return f"requested {got[0]!r}"
         return None
     if case["kind"] == "tmpname":
         from capellambse.filehandler import local as fh_local
